@@ -267,6 +267,7 @@ def check_C12(tier, seed):
     mcs.append(("Controllers.tla", "MC_Controllers.cfg"))
     # acknowledgement generation (what loss detection feeds on): extension of the recovery specification
     mcs.append(("Ack.tla", "MC_Ack.cfg"))
+    mcs.append(("AckFreq.tla", "MC_AckFreq.cfg"))
     # explicit congestion notification (the other congestion signal): extension, see DESIGN 0.8
     mcs += [("Ecn.tla", "MC_Ecn.cfg"), ("Ecn.tla", "MC_Ecn_hostile.cfg"), ("Ecn.tla", "MC_Ecn_bleached.cfg")]
     ccv, cccov = cc_stage(tier, seed, r)
